@@ -72,7 +72,7 @@ func (n *InstanceMethodLookupNode) String() string {
 		buff.WriteRune(')')
 	}
 
-	buff.WriteString("::")
+	buff.WriteString(".:")
 	buff.WriteString(n.Name.String())
 
 	return buff.String()
